@@ -4,6 +4,7 @@ package agent
 
 import (
 	"bytes"
+	"github.com/postalsys/muti-metroo/internal/icmp"
 	"sort"
 
 	"github.com/postalsys/muti-metroo/internal/exit"
@@ -164,3 +165,6 @@ func (a *Agent) VerifControlState() (pending []uint64, fwdIDs []uint64, fwdPeers
 func (a *Agent) VerifExitHandler() *exit.Handler       { return a.exitHandler }
 func (a *Agent) VerifForwardHandler() *forward.Handler { return a.forwardHandler }
 func (a *Agent) VerifStreamManager() *stream.Manager   { return a.streamMgr }
+
+// VerifICMPHandler exposes the ICMP exit handler (nil when ICMP is disabled).
+func (a *Agent) VerifICMPHandler() *icmp.Handler { return a.icmpHandler }
